@@ -170,6 +170,25 @@ Example C08_flate_params_example :
   post_process_params (Some 1%Z) (Some 0%Z) None None = PPass.
 Proof. exact post_process_params_examples. Qed.
 
+(* ---- cmap format 4 segment arrays (font/install.go: prepareCMapFormat4) ---- *)
+
+(* For ALL header values: a layout that prepareCMapFormat4 accepts covers the endCode, startCode, idDelta AND
+   idRangeOffset arrays — every 2-byte read for a segment below segCount is inside the declared length, which
+   is inside the available data. *)
+Theorem cmap4_segment_arrays_in_bounds : forall avail format declared segx2 size n e st d rg,
+  (0 <= segx2)%Z ->
+  cmap4_layout avail format declared segx2 = Some (size, n, e, st, d, rg) ->
+  (size <= avail)%Z /\ (1 <= n)%Z /\
+  forall s, (0 <= s < n)%Z ->
+    (0 <= e + 2 * s /\ e + 2 * s + 2 <= size)%Z /\ (0 <= st + 2 * s /\ st + 2 * s + 2 <= size)%Z /\
+    (0 <= d + 2 * s /\ d + 2 * s + 2 <= size)%Z /\ (0 <= rg + 2 * s /\ rg + 2 * s + 2 <= size)%Z.
+Proof. exact cmap4_layout_in_bounds. Qed.
+Print Assumptions cmap4_segment_arrays_in_bounds.
+
+Example C08_cmap4_example :
+  cmap4_layout 24 4 22 2 = None /\ cmap4_layout 24 4 24 2 = Some (24, 1, 14, 18, 20, 22)%Z.
+Proof. exact cmap4_layout_example. Qed.
+
 (* ---- the object parser (ParseObjectContext / parseObjectContext / parseArray / parseDict) ---- *)
 
 (* For ALL byte strings, all limits and start levels, and whatever the token-level readers do: no call
